@@ -812,6 +812,20 @@ pub fn inputs_c15(r: &mut Rng, n: usize, tier: &str, out: &mut dyn Write) {
         let m = *r.pick(&["last", "count", "nth", "min", "max", "rest", "step_by", "skip_take"]);
         writeln!(out, "tsiter {} {}:{} {} {} {} {} {} {}", r.below(2), dstr(start), a, dstr(span), b, dstr(step), k, m, r.below(8)).unwrap();
     }
+    for _ in 0..(n / 150).max(4) {
+        // symmetry class: the series straddles the zero of the start's own count and some item start + k x step is the
+        // exact NEGATION of the end's count (start = -(b + k x step), end = +b), or start and end are themselves
+        // symmetric (k = 0) -- `Duration ==` holds between d and -d within a century of zero
+        let a = *r.pick(&NONDYN);
+        let step = match r.below(4) { 0 => 1, 1 => SEC, 2 => 3600 * SEC, _ => r.below(DAY as u64) as i128 + 1 };
+        let b = match r.below(3) { 0 => step * (1 + r.below(20) as i128), 1 => 1 + r.below(1000) as i128, _ => 1 + r.below(DAY as u64) as i128 };
+        let k = r.below(12) as i128;
+        let start = -(b + k * step);
+        let span = 2 * b + k * step;
+        if span / step < cap {
+            writeln!(out, "series {} {}:{} {} {} {} {}", r.below(2), dstr(start), a, dstr(span), a, dstr(step), cap + 5).unwrap();
+        }
+    }
     for _ in 0..(n / 300).max(2) {
         // word-size class: the offsets k x step cross 2^63 or 2^64 ns (a span of three to six centuries), or the items
         // themselves cross those counts (start near -2^63 / 0 / 2^63 - span)
